@@ -116,6 +116,7 @@ def check(ctx):
     run.floor('R12', n, 7, 'observer loops')
     observers.writer_keeps_no_row(ctx)
     observers.json_object_is_row(ctx)      # what is persisted for a row has all its values, under the field names
+    observers.observer_completes(ctx)      # ... and has all rows, whatever the consumer pulls
 
     from rules import independence
     independence.r28_functions(ctx, [(roles['rows'].qualname, {}), (rp.qualname, {}),
